@@ -4,6 +4,9 @@
 //!        c19 rev <n> <outdir>        redb 3.0.0 writes, the working tree reads every image
 //!        c19 composite <outdir>      directed: a table whose type names are composites ([u8;8] key, tuple key)
 //!        c19 model <image> <psz>     open an image assembled by the Coq model's encoders with both crates
+//!        c19 lensweep <n_random> [max_len] [window]   directed: single-leaf tables whose checksummed prefix sweeps every length around the
+//!                                    multiples of 64 up to two pages (block / stripe boundaries of the page checksum), both
+//!                                    directions, crash image and cleanly closed image; one line per disagreement on stdout
 //! Every image is also left in <outdir> with index.txt / exp_*.txt so that the extracted Coq reader can
 //! be run on it (same layout as the C10 harness).  Output: one line per image in <outdir>/readback.txt
 //!   <image> reader=<v3|cur> contents=<same|DIFF|ERROR ...> integrity=<Ok(true)|...>
@@ -90,6 +93,96 @@ fn histories(n: u64, out: &Path, mode: util::Mode, allowed: &dyn Fn(usize) -> bo
     stats
 }
 
+/// One writer / one reader per release for the length sweep: table "t": u64 -> &[u8] holding the single pair
+/// (1, [fill; vlen]); the root leaf's checksummed prefix is 16 + vlen bytes (header 4, one value end offset 4,
+/// key 8, value), so sweeping vlen sweeps the length the page checksum is computed over.
+macro_rules! lensweep_fns {
+    ($write:ident, $read:ident, $c:ident, $m:ident) => {
+        fn $write(vlen: usize, fill: u8) -> Result<(Vec<u8>, Vec<u8>), String> {
+            use rv_harness::backend::RecBackend;
+            let be = RecBackend::new();
+            let db = $c::Database::builder().create_with_backend(util::$m::Be(be.handle())).map_err(|e| format!("create: {e}"))?;
+            let def: $c::TableDefinition<u64, &[u8]> = $c::TableDefinition::new("t");
+            let txn = db.begin_write().map_err(|e| e.to_string())?;
+            {
+                let mut t = txn.open_table(def).map_err(|e| e.to_string())?;
+                t.insert(1u64, vec![fill; vlen].as_slice()).map_err(|e| e.to_string())?;
+            }
+            txn.commit().map_err(|e| e.to_string())?;
+            let crash = be.snapshot();
+            drop(db);
+            Ok((crash, be.snapshot()))
+        }
+        fn $read(bytes: Vec<u8>, vlen: usize, fill: u8) -> Result<String, String> {
+            use rv_harness::backend::RecBackend;
+            use $c::{ReadableDatabase, ReadableTable};
+            let be = RecBackend::with_data(bytes);
+            let mut db = $c::Database::builder().create_with_backend(util::$m::Be(be.handle())).map_err(|e| format!("open: {e}"))?;
+            {
+                let txn = db.begin_read().map_err(|e| e.to_string())?;
+                let def: $c::TableDefinition<u64, &[u8]> = $c::TableDefinition::new("t");
+                let t = txn.open_table(def).map_err(|e| format!("open_table: {e}"))?;
+                let got = t.get(1u64).map_err(|e| e.to_string())?.map(|g| g.value().to_vec());
+                if got != Some(vec![fill; vlen]) {
+                    return Err(format!("contents differ: get(1) = {:?} bytes, expected {} bytes", got.map(|g| g.len()), vlen));
+                }
+            }
+            Ok(match db.check_integrity() {
+                Ok(b) => format!("Ok({b})"),
+                Err(e) => format!("Err({e})"),
+            })
+        }
+    };
+}
+lensweep_fns!(lens_write_cur, lens_read_cur, redb, cur);
+lensweep_fns!(lens_write_v3, lens_read_v3, redb3, v3);
+
+fn lensweep(n_random: u64, max_len: usize, window: usize) {
+    let mut r = Rng::new(seed_from_env() ^ 0x19_1e);
+    // checksummed prefix = 16 + vlen: every length within 2 of a multiple of 64 up to two pages, plus random ones
+    let mut vlens: Vec<usize> = vec![];
+    for l in 16usize..=max_len {
+        let m = l % 64;
+        if m <= window || m >= 64 - window {
+            vlens.push(l - 16);
+        }
+    }
+    for _ in 0..n_random {
+        vlens.push(r.range(0, 9000) as usize);
+    }
+    let (mut cases, mut bad, mut boundary) = (0u64, 0u64, 0u64);
+    for vlen in vlens {
+        let fill = (r.below(255) + 1) as u8;
+        if (16 + vlen) % 1024 == 0 {
+            boundary += 1;
+        }
+        for dir in ["fwd", "rev"] {
+            let written = catch(|| if dir == "fwd" { lens_write_cur(vlen, fill) } else { lens_write_v3(vlen, fill) });
+            let (crash, clean) = match written {
+                Ok(Ok(x)) => x,
+                other => {
+                    // the writer itself failed: not a compatibility verdict, reported as a harness problem
+                    println!("LENSWEEP-WRITER-FAILED dir={dir} vlen={vlen} {:?}", other.map(|r| r.map(|_| ())));
+                    continue;
+                }
+            };
+            for (kind, img) in [("crash", crash), ("clean", clean)] {
+                cases += 1;
+                let res = catch(|| if dir == "fwd" { lens_read_v3(img.clone(), vlen, fill) } else { lens_read_cur(img.clone(), vlen, fill) });
+                let verdict = match res {
+                    Ok(Ok(i)) if i == "Ok(true)" => continue,
+                    Ok(Ok(i)) => format!("integrity={i}"),
+                    Ok(Err(e)) => format!("error={}", e.replace('\n', " ")),
+                    Err(p) => format!("panic={}", p.replace('\n', " ")),
+                };
+                bad += 1;
+                println!("LENSWEEP-BAD dir={dir} image={kind} vlen={vlen} fill={fill} covered={} {verdict}", 16 + vlen);
+            }
+        }
+    }
+    println!("lensweep cases={cases} bad={bad} lengths_at_multiples_of_1024={boundary}");
+}
+
 fn main() {
     if std::env::var("H_VERBOSE").is_err() {
         silence_panics();
@@ -118,6 +211,11 @@ fn main() {
             println!("{}", stats.summary());
             println!("readback images={} bad={}", n, bad);
         }
+        Some("lensweep") => lensweep(
+            args.get(2).map(|x| x.parse().unwrap()).unwrap_or(0),
+            args.get(3).map(|x| x.parse().unwrap()).unwrap_or(4096 + 66),
+            args.get(4).map(|x| x.parse().unwrap()).unwrap_or(1),
+        ),
         Some("check") => {
             // re-read the images of an existing directory with the chosen reader
             let out = PathBuf::from(&args[2]);
